@@ -71,6 +71,50 @@ impl InputTrait for TI {
 
 type P = BoxedParser<TI, (), String, TE>;
 
+/// An element parser whose verdict depends on its context (the previous element of a `ManyCtxParser`):
+/// it reads one character and rejects it, softly and without consuming, when it equals the context.
+/// `fatal_on`: a character that makes it fail fatally (after consuming it).
+struct DepElem {
+    ctx: String,
+    fatal_on: Option<char>,
+}
+
+impl Parser<TI, String> for DepElem {
+    type Output = String;
+    type Error = TE;
+
+    fn parse(&mut self, input: &mut TI) -> Result<String, TE> {
+        if input.is_eof() {
+            return Err(TE::soft(0));
+        }
+        let position = input.get_position();
+        let c = input.read();
+        if Some(c) == self.fatal_on {
+            return Err(TE::fatal(9));
+        }
+        if c.to_string() == self.ctx {
+            input.set_position(position);
+            return Err(TE::soft(0));
+        }
+        Ok(c.to_string())
+    }
+
+    fn set_context(&mut self, ctx: &String) {
+        self.ctx = ctx.clone();
+    }
+}
+
+struct ConcatCombiner;
+
+impl rusty_pc::many::ManyCombiner<String, String> for ConcatCombiner {
+    fn seed(&self, element: String) -> String {
+        element
+    }
+    fn accumulate(&self, result: String, element: String) -> String {
+        result + &element
+    }
+}
+
 fn starts_with(s: &str, c: char) -> bool {
     s.starts_with(c)
 }
@@ -177,6 +221,17 @@ pub fn build(t: &Value) -> Result<P, String> {
             child(t, "p")?,
             child(t, "r")?,
             SurroundMode::Mandatory,
+        )
+        .boxed(),
+        // a run of elements each of which must differ from the one before it (the context handed from one to the next)
+        "many_ctx0" | "many_ctx1" | "many_ctx0_fatal" => rusty_pc::many_ctx::ManyCtxParser::new(
+            DepElem {
+                ctx: String::new(),
+                fatal_on: if op == "many_ctx0_fatal" { Some('b') } else { None },
+            },
+            ConcatCombiner,
+            |v: &String| v.clone(),
+            op != "many_ctx1",
         )
         .boxed(),
         "delimited" => child(t, "l")?
